@@ -129,6 +129,9 @@ private:
 	}
 #else
 		int n;
+#ifdef ASL_VERIF
+		asl_verif_point(10, arg);
+#endif
 		if((n = pthread_create(&_thread, 0, f, arg)))
 		{
 			ASL_BAD_ALLOC();
@@ -137,6 +140,9 @@ private:
 	void run(Function_ f, ThreadAttrib& a , void* arg=0)
 	{
 		int n;
+#ifdef ASL_VERIF
+		asl_verif_point(10, arg);
+#endif
 		if((n = pthread_create(&_thread, *a, f, arg)))
 		{
 			ASL_BAD_ALLOC();
@@ -146,7 +152,13 @@ private:
 	static ASL_THREADFUNC_RET ASL_THREADFUNC_API begin(void* p)
 	{
 		Thread* t = (Thread*)p;
+#ifdef ASL_VERIF
+		asl_verif_point(11, p);
+#endif
 		t->run();
+#ifdef ASL_VERIF
+		asl_verif_point(14, (void*)pthread_self());
+#endif
 		t->_threadFinished = true;
 		t->ended(); // last use of t: the object may delete itself here
 		return 0;
@@ -155,21 +167,39 @@ private:
 	template<class Func>
 	static void ASL_THREADFUNC_API beginf(void* p)
 	{
+#ifdef ASL_VERIF
+		asl_verif_point(11, p);
+#endif
 		Context<Func> s = *(Context<Func>*)p;
+#ifdef ASL_VERIF
+		asl_verif_point(12, p);
+#endif
 		((Context<Func>*)p)->ready = true;
 		s.f();
+#ifdef ASL_VERIF
+		asl_verif_point(14, (void*)pthread_self());
+#endif
 		s.t->_threadFinished = true;
 	}
 	template<class Func>
 	static void ASL_THREADFUNC_API beginfN(void* p)
 	{
 		if (!p) return;
+#ifdef ASL_VERIF
+		asl_verif_point(11, p);
+#endif
 		Context<Func> s = *(Context<Func>*)p;
+#ifdef ASL_VERIF
+		asl_verif_point(12, p);
+#endif
 		((Context<Func>*)p)->ready = true;
 		for (int i = s.i0; i < s.i1; i += s.s)
 		{
 			s.f(i);
 		}
+#ifdef ASL_VERIF
+		asl_verif_point(14, (void*)pthread_self());
+#endif
 		s.t->_threadFinished = true;
 	}
 #endif
@@ -237,6 +267,9 @@ public:
 		WaitForSingleObject(_thread, INFINITE);
 #else
 		void* ret;
+#ifdef ASL_VERIF
+		asl_verif_point(15, (void*)_thread);
+#endif
 		pthread_join(_thread, &ret);
 		_thread = 0;
 #endif
@@ -270,6 +303,9 @@ public:
 		// started in place: going through start() and a temporary copy reset the finished flag
 		Context<F> s = { f, this, false, 0, 0, 0 };
 		run((Function_)Thread::beginf<F>, (void*)&s);
+#ifdef ASL_VERIF
+		while (!s.ready) asl_verif_point(13, &s);
+#endif
 		while (!s.ready) {}
 	}
 	template<class Func>
@@ -277,6 +313,9 @@ public:
 	{
 		Context<Func> s = { f, t, false, 0, 0, 0 };
 		t->run((Function_)Thread::beginf<Func>, (void*)&s);
+#ifdef ASL_VERIF
+		while (!s.ready) asl_verif_point(13, &s);
+#endif
 		while (!s.ready) {}
 		return *t;
 	}
@@ -310,6 +349,9 @@ public:
 			threads << new Thread;
 			Context<F> s = { f, threads.last(), false, i0 + i, i1, n };
 			threads.last()->run((Function_)Thread::beginfN<F>, (void*)&s);
+#ifdef ASL_VERIF
+			while (!s.ready) asl_verif_point(13, &s);
+#endif
 			while (!s.ready) {}
 		}
 		foreach(Thread* t, threads)
